@@ -49,9 +49,10 @@ def step (s : S) (line : String) : S × String :=
   match ws with
   | [] => (s, "bad-op")
   | op :: _ =>
-    if op == "seed" then
+    if op == "seed" || op == "seedfast" then
       match argNat? ws "s" with
-      | some sd => if sd = 0 then (s, "bad-op") else ({ s with r := some (Rng.create .mersenne (UInt32.ofNat sd)) }, "ok")
+      | some sd => if sd = 0 then (s, "bad-op") else
+          ({ s with r := some (Rng.create (if op == "seed" then .mersenne else .fast) (UInt32.ofNat sd)) }, "ok")
       | none => (s, "bad-op")
     else
     match s.r with
@@ -59,6 +60,7 @@ def step (s : S) (line : String) : S × String :=
     | some r =>
       let fin (res : String) (r' : Rng) : S × String := ({ s with r := some r' }, res)
       if op == "peek" then let (x, r') := r.next; fin s!"ok {x}" r'
+      else if op == "poke" && r.kind != .mersenne then (s, "bad-op")
       else if op == "poke" then
         -- force the next pre-tempering state word (generator states that seeds make astronomically rare)
         let r1 := if r.st.mti ≥ 624 then (r.next).2 else r
@@ -152,6 +154,7 @@ def step (s : S) (line : String) : S × String :=
         let showV (o : Array Int) : String := if o.isEmpty then "ok -" else "ok " ++ ",".intercalate (o.toList.map toString)
         if op == "ishuffle" || op == "dshuffle" || op == "fshuffle" || op == "lshuffle" then let (o, r') := cShuffle v r; fin (showV o) r'
         else (s, showV (reverse ip v (if ip then v else Array.replicate v.size (if op == "vcreverse" then 0x77 else -777)) 0 v.size))
+      else if (op == "msashuffle" || op == "bootstrap") && (argNat? ws "mixed").getD 0 == 1 then (s, "einval")
       else if op == "msashuffle" || op == "bootstrap" then
         match hexRows ws "rows" with
         | some rows =>
